@@ -197,7 +197,9 @@ def build_kwargs(problem, cfg, trace, hooks=None, checkpoint=None, x0=None):
               "ftol_linesearch", "gtol_linesearch", "xtol_linesearch", "eps_SY", "max_steplength"):
         if k in cfg and cfg[k] is not None:
             kw[k] = cfg[k]
-    if "gtol" in cfg:
+    if "gtol_obj" in hooks:
+        kw["gtol"] = hooks["gtol_obj"]
+    elif "gtol" in cfg:
         if cfg.get("gtol_callable"):
             gv = cfg["gtol"]
 
@@ -210,7 +212,9 @@ def build_kwargs(problem, cfg, trace, hooks=None, checkpoint=None, x0=None):
             kw["gtol"] = gtol_fn
         else:
             kw["gtol"] = cfg["gtol"]
-    if cfg.get("ftarget") is not None:
+    if "ftarget_obj" in hooks:
+        kw["ftarget"] = hooks["ftarget_obj"]
+    elif cfg.get("ftarget") is not None:
         if cfg.get("ftarget_callable"):
             tv = cfg["ftarget"]
 
